@@ -45,12 +45,36 @@ def profile():
     return p
 
 
+TZ_NAME = "America/Chicago"
+
+
+def SHARD_ENV(shard, nshards):
+    """Every fourth shard runs Django in its DEFAULT configuration (USE_TZ=True, TIME_ZONE=
+    America/Chicago): stored values are UTC instants, date parts and naive literals are local."""
+    return {"VP_DJANGO_TZ": TZ_NAME} if shard % 4 == 3 else {}
+
+
+def tz_mode():
+    import os
+    return os.environ.get("VP_DJANGO_TZ")
+
+
+def _to_stored(v):
+    """The generated row values are LOCAL wall-clock times; with USE_TZ=True the database
+    holds the UTC instant."""
+    import datetime as dt
+    if tz_mode() and isinstance(v, dt.datetime):
+        from zoneinfo import ZoneInfo
+        return v.replace(tzinfo=ZoneInfo(tz_mode())).astimezone(dt.timezone.utc).replace(tzinfo=None)
+    return v
+
+
 def load(rows):
     con = django_env.connection()
     with con.cursor() as cur:
         cur.execute("DELETE FROM t")
         cur.executemany("INSERT INTO t (id,a,b,c,s,u,d,flag,f,g,dd,m) VALUES (%s,%s,%s,%s,%s,%s,%s,%s,%s,%s,%s,%s)",
-                        [tuple(sqlite_env._adapt(r.get(k)) for k in sqlite_env.COLS) for r in rows])
+                        [tuple(sqlite_env._adapt(_to_stored(r.get(k))) for k in sqlite_env.COLS) for r in rows])
 
 
 def select(text, rows):
@@ -85,15 +109,41 @@ def run(ctx):
     rng = ctx.rng("c02")
     p = profile()
     maxd = ctx.pick(4, 6)
+    dom = None
+    if tz_mode():
+        # local wall-clock values away from year 1 / 9999 (no UTC instant) and from the two DST
+        # changes (no unique / no local time), but on both sides of local and UTC midnight
+        import datetime as dt
+        from ..gen import rows as RW
+        dom = dict(RW.DOMAIN, d=[None, dt.datetime(2020, 1, 1, 0, 0, 0), dt.datetime(2019, 12, 31, 23, 59, 59),
+                                 dt.datetime(2021, 6, 15, 12, 30, 45), dt.datetime(2000, 2, 29, 6, 7, 8),
+                                 dt.datetime(2020, 1, 31, 21, 0, 0), dt.datetime(2020, 2, 1, 3, 0, 0),
+                                 dt.datetime(2021, 6, 15, 19, 0, 0)])
+        p.datetime_lits = ["2020-01-01T00:00:00", "2019-12-31T23:59:59", "2021-06-15T12:30:45",
+                           "2000-02-29T06:07:08", "2020-02-01T00:00:00", "2020-01-31T21:00:00"]
+        p.date_lits = ["2020-01-01", "2019-12-31", "2021-06-15", "2000-02-29", "2020-02-01", "2020-01-31"]
+        ctx.cls("django-config:USE_TZ=%s" % tz_mode())
+        # dates as bounds of date(<field>), every comparator, both sides
+        for j, op in enumerate(("eq", "ne", "lt", "le", "gt", "ge")):
+            for dl in p.date_lits:
+                for t in (("cmp", op, T.call("date", T.ident("d")), T.lit("date", dl)),
+                          ("cmp", op, T.lit("date", dl), T.call("date", T.ident("d"))),
+                          ("un", "not", ("cmp", op, T.call("date", T.ident("d")), T.lit("date", dl)))):
+                    SC.judge(ctx, t, rng, select, findings.django_semantic_triggers, "tz-date-bounds", cap=200,
+                             extra_case=case_extra, profile=p, domain=dom)
+    else:
+        ctx.cls("django-config:USE_TZ=False")
     for fname in sorted(DJANGO_FUNCS):
-        if ctx.mine(sorted(DJANGO_FUNCS).index(fname)):
+        if ctx.mine(sorted(DJANGO_FUNCS).index(fname)) or tz_mode():
             SC.judge(ctx, scalar.simple_filter_for(rng, p, fname), rng, select,
-                     findings.django_semantic_triggers, "coverage", cap=200, extra_case=case_extra, profile=p)
-    SC.math_of_int_lane(ctx, ctx.rng("mathint"), select, findings.django_semantic_triggers, extra_case=case_extra, profile=p)
-    SC.big_list_lane(ctx, ctx.rng("biglist"), select, findings.django_semantic_triggers,
-                     ctx.pick(6, 60), profile=p)
-    SC.machine_lane(ctx, ctx.rng("machine"), select, findings.django_semantic_triggers,
-                    ctx.pick(40, 1000), extra_case=case_extra, profile=p)
+                     findings.django_semantic_triggers, "coverage", cap=200, extra_case=case_extra, profile=p,
+                     domain=dom)
+    if not tz_mode():
+        SC.math_of_int_lane(ctx, ctx.rng("mathint"), select, findings.django_semantic_triggers, extra_case=case_extra, profile=p)
+        SC.big_list_lane(ctx, ctx.rng("biglist"), select, findings.django_semantic_triggers,
+                         ctx.pick(6, 60), profile=p)
+        SC.machine_lane(ctx, ctx.rng("machine"), select, findings.django_semantic_triggers,
+                        ctx.pick(40, 1000), extra_case=case_extra, profile=p)
     for i in range(ctx.pick(900, 30000)):
         if ctx.out_of_time():
             break
@@ -101,7 +151,7 @@ def run(ctx):
         if T.size(t) > 70:
             continue
         SC.judge(ctx, t, rng, select, findings.django_semantic_triggers, "typed", cap=200,
-                 extra_case=case_extra, profile=p)
+                 extra_case=case_extra, profile=p, domain=dom)
         if i % 150 == 0:
             ctx.sample(dict(filter=to_text(t)[:200], **case_extra(to_text(t))))
     contracts.flush_counts(ctx)
@@ -118,6 +168,9 @@ def requirements(m):
     for k in need:
         if not m["classes"].get(k):
             out.append("construct never exercised: " + k)
+    for cfg in ("django-config:USE_TZ=False", "django-config:USE_TZ=" + TZ_NAME):
+        if not m["classes"].get(cfg):
+            out.append("Django configuration never exercised: " + cfg)
     if c.get("trivial_filters", 0) > 0.8 * max(1, c.get("evaluations", 0)):
         out.append("more than 80% of the filters were trivial")
     return out
